@@ -155,7 +155,7 @@ static void set_env (char **w, int n) {
 }
 
 /* client side of one transaction: optionally refuse to receive, write the request, collect the reply */
-struct client { int fd; unsigned char *req; long reqlen; int sendfail; unsigned char *rsp; long rsplen; long cut; long stall; };
+struct client { int fd; unsigned char *req; long reqlen; int sendfail; unsigned char *rsp; long rsplen; long cut; long stall; int hold; };
 static void *client_thread (void *arg) {
     struct client *c = arg; long off = 0, cap = 4096; ssize_t k;
     long towrite = (c->cut >= 0 && c->cut < c->reqlen) ? c->cut : c->reqlen;
@@ -166,7 +166,7 @@ static void *client_thread (void *arg) {
         if (k <= 0) break;
         off += k;
     }
-    if (c->cut >= 0) shutdown (c->fd, SHUT_WR);      /* connection broken by the client mid-request */
+    if (c->cut >= 0 && !c->hold) shutdown (c->fd, SHUT_WR);      /* connection broken by the client mid-request */
     c->rsp = malloc (cap); c->rsplen = 0;
     if (!c->sendfail) {
         while ((k = read (c->fd, c->rsp + c->rsplen, cap - c->rsplen)) > 0) {
@@ -179,7 +179,7 @@ static void *client_thread (void *arg) {
 
 /* cred req <hex request bytes> [env k=v ...] [sendfail=1] [cut=N]  ->  rsp=<hex> leak=<0|1> */
 static void do_req (char **w, int n) {
-    int sv[2]; m_msg_t m; struct client c; pthread_t th; char *v; int leak; long stall_bad = -1;
+    int sv[2]; m_msg_t m; struct client c; pthread_t th; char *v; int leak; long stall_bad = -1, slow_bad = -1;
     memset (&c, 0, sizeof c);
     c.reqlen = hx_parse (w[2], &c.req);
     if (c.reqlen < 0) { puts ("bad-op"); return; }
@@ -188,6 +188,7 @@ static void do_req (char **w, int n) {
     c.sendfail = (v = kv (w + 3, n - 3, "sendfail")) ? atoi (v) : 0;
     c.cut = (v = kv (w + 3, n - 3, "cut")) ? atol (v) : -1;
     c.stall = (v = kv (w + 3, n - 3, "stall")) ? atol (v) : -1;
+    c.hold = (v = kv (w + 3, n - 3, "hold")) ? atoi (v) : 0;
     if (socketpair (AF_UNIX, SOCK_STREAM, 0, sv) < 0) { puts ("bad-op"); return; }
     c.fd = sv[1];
     pthread_create (&th, NULL, client_thread, &c);
@@ -202,13 +203,18 @@ static void do_req (char **w, int n) {
         /* a stalled client must be dropped after the I/O timeout: not at once, not (much) later */
         if (c.stall >= 0 && (ms < MUNGE_SOCKET_TIMEOUT_MSECS - 200 || ms > MUNGE_SOCKET_TIMEOUT_MSECS + 3000))
             stall_bad = ms;
+        /* fast=1: the request must be disposed of at once (e.g. an over-limit length is refused without
+         * waiting for, or buffering, the body the client keeps sending) */
+        if ((v = kv (w + 3, n - 3, "fast")) && atoi (v) && ms > 1000)
+            slow_bad = ms;
     }
     pthread_join (th, NULL);
     close (sv[1]);
     printf ("rsp="); hx_print (c.rsp, c.rsplen);
     free (c.req); free (c.rsp);
     leak = __lsan_do_recoverable_leak_check ();
-    if (stall_bad >= 0) printf (" leak=%d stalled-client-dropped-after-%ldms\n", leak ? 1 : 0, stall_bad);
+    if (slow_bad >= 0) printf (" leak=%d request-not-refused-at-once-%ldms\n", leak ? 1 : 0, slow_bad);
+    else if (stall_bad >= 0) printf (" leak=%d stalled-client-dropped-after-%ldms\n", leak ? 1 : 0, stall_bad);
     else printf (" leak=%d\n", leak ? 1 : 0);
 }
 
